@@ -46,9 +46,9 @@ CFG = {
     },
     "gaps": [
         "C19_visit_roundtrip_partial / C19_rt_partial take the codec round trip `deserialize true dbg (serialize b) = ok (b, rest)` (C05/C06, proved by the codec family) as a hypothesis about the value at hand",
-        "RoaringTreemap: Serde.serEventsOf / visitOf are generic and the harness code is generic, but the treemap ops (tserde_*) are not wired yet (need the treemap family)",
+        "RoaringTreemap: C19_t_events, C19_t_events_methods, C19_t_visit_kinds, C19_t_visit_roundtrip, C19_t_rt are proved in full for well-formed treemaps (no codec hypothesis: the treemap round trip is lifted from the 32-bit deserialize_serialize)",
         "postcard / serde_json themselves are exercised on the Rust side only (trusted formats); the model prints the property's expectation `ok eq=true`",
     ],
     "level_text": "Theorems (Lean 4, kernel-checked) about the model of the serde impls: Serialize emits exactly one data-model event, bytes(serialize b); the visitor's visit_bytes / visit_borrowed_bytes / visit_byte_buf / visit_seq all run the checked decoder on the delivered bytes, so each returns the original value whenever the codec round trip holds for it (C05). The model is tied to the Rust source (built with --features serde) by a recording Serializer, hand-written Deserializers and real postcard/serde_json round trips on generated values, in two build profiles. Unbounded quantifier = theorem; tie = sampled.",
-    "level_note": "Trusted: Lean kernel; the hand-written model mirrors the code (checked by correspondence on generated values only); serde's trait plumbing (default visit_borrowed_bytes/visit_byte_buf forwarding), postcard and serde_json; the codec round trip is a hypothesis here (property C05). 32-bit type only so far. See evidence coverage.proof_gaps.",
+    "level_note": "Trusted: Lean kernel; the hand-written model mirrors the code (checked by correspondence on generated values only); serde's trait plumbing (default visit_borrowed_bytes/visit_byte_buf forwarding), postcard and serde_json; the codec round trip is a hypothesis here (property C05). See evidence coverage.proof_gaps.",
 }
